@@ -388,9 +388,11 @@ func newClient(p Persistence, config *Config) *Client {
 func (c *Client) Close() error {
 	// halt context (interrupts dial & connect)
 	c.cancel()
+	verifYield("close.cancel")
 
 	// block connection control
 	conn, ok := <-c.connSem
+	verifYield("close.conn")
 	if !ok {
 		// already closed
 		return nil
@@ -398,6 +400,7 @@ func (c *Client) Close() error {
 	defer func() {
 		// signal offline
 		blockSignalChan(c.onlineSig)
+		verifYield("close.sigmid")
 		clearSignalChan(c.offlineSig)
 		// signal closed
 		close(c.writeSem)
@@ -407,17 +410,20 @@ func (c *Client) Close() error {
 	// block write, close connection
 	select {
 	case conn = <-c.writeSem:
+		verifYield("close.write")
 		switch conn {
 		case connPending, connDown:
 			return nil // already offline
 		}
 		return conn.Close()
 	default: // no wait for write
+		verifYield("close.nowrite")
 		var err error
 		if conn != nil {
 			err = conn.Close() // may interrupt write
 		}
 		<-c.writeSem // won't block for long now
+		verifYield("close.waited")
 		return err
 	}
 }
@@ -434,15 +440,18 @@ func (c *Client) Close() error {
 func (c *Client) Disconnect(quit <-chan struct{}) error {
 	// halt context (interrupts dial & connect)
 	c.cancel()
+	verifYield("disc.cancel")
 
 	// block connection control
 	conn, ok := <-c.connSem
+	verifYield("disc.conn")
 	if !ok {
 		return fmt.Errorf("%w; DISCONNECT not send", ErrClosed)
 	}
 	defer func() {
 		// signal offline
 		blockSignalChan(c.onlineSig)
+		verifYield("disc.sigmid")
 		clearSignalChan(c.offlineSig)
 		// signal closed
 		close(c.writeSem)
@@ -452,13 +461,16 @@ func (c *Client) Disconnect(quit <-chan struct{}) error {
 	// block write, send disconnect, close connection
 	select {
 	case <-quit:
+		verifYield("disc.quit")
 		if conn != nil {
 			conn.Close() // may interrupt write
 		}
 		<-c.writeSem // won't block for long now
+		verifYield("disc.waited")
 		return fmt.Errorf("%w; DISCONNECT not send", ErrCanceled)
 
 	case conn = <-c.writeSem:
+		verifYield("disc.write")
 		switch conn {
 		case connPending, connDown:
 			return fmt.Errorf("%w; DISCONNECT not send", ErrDown)
@@ -484,6 +496,7 @@ func (c *Client) termCallbacks() {
 		defer wg.Done()
 
 		_, ok := <-c.atLeastOnce.seqSem
+		verifYield("term.seq1")
 		if !ok { // already terminated
 			return
 		}
@@ -503,6 +516,7 @@ func (c *Client) termCallbacks() {
 		defer wg.Done()
 
 		_, ok := <-c.exactlyOnce.seqSem
+		verifYield("term.seq2")
 		if !ok { // already terminated
 			return
 		}
@@ -519,6 +533,7 @@ func (c *Client) termCallbacks() {
 
 	select {
 	case ack := <-c.pingAck:
+		verifYield("term.ping")
 		ack <- fmt.Errorf("%w; PING not confirmed", ErrBreak)
 	default:
 		break
@@ -566,20 +581,25 @@ func blockSignalChan(ch chan chan struct{}) {
 func (c *Client) toOffline() {
 	select {
 	case _, ok := <-c.writeSem:
+		verifYield("off.lock")
 		if !ok {
 			return // ErrClosed
 		}
 		c.readConn.Close()
 	default:
+		verifYield("off.nolock")
 		c.readConn.Close() // interrupt write
 		_, ok := <-c.writeSem
+		verifYield("off.waited")
 		if !ok {
 			return // ErrClosed
 		}
 	}
 	blockSignalChan(c.onlineSig)
+	verifYield("off.sigmid")
 	clearSignalChan(c.offlineSig)
 	c.writeSem <- connPending
+	verifYield("off.unlock")
 
 	c.readConn = nil
 	c.bigMessage = nil // lost
@@ -588,6 +608,7 @@ func (c *Client) toOffline() {
 
 	select {
 	case ack := <-c.pingAck:
+		verifYield("off.ping")
 		ack <- ErrBreak
 	default:
 		break
@@ -603,8 +624,10 @@ func (c *Client) lockWrite(quit <-chan struct{}) (net.Conn, error) {
 	for {
 		select {
 		case <-quit:
+			verifYield("lw.quit")
 			return nil, ErrCanceled
 		case conn, ok := <-c.writeSem: // lock
+			verifYield("lw.got")
 			switch {
 			case !ok:
 				return nil, ErrClosed
@@ -622,6 +645,7 @@ func (c *Client) lockWrite(quit <-chan struct{}) (net.Conn, error) {
 				checkConnect = time.NewTicker(20 * time.Millisecond)
 				defer checkConnect.Stop()
 			}
+			verifYield("lw.wait")
 			select {
 			case <-c.ctx.Done():
 				return nil, ErrClosed
@@ -630,6 +654,7 @@ func (c *Client) lockWrite(quit <-chan struct{}) (net.Conn, error) {
 			case <-checkConnect.C:
 				break // connect may have failed
 			}
+			verifYield("lw.woke")
 		}
 	}
 }
@@ -649,10 +674,12 @@ func (c *Client) write(quit <-chan struct{}, p []byte) error {
 			conn.Close() // signal read routine
 		}
 		c.writeSem <- connPending // unlock write; pending connect
+		verifYield("w.fail")
 		return errors.Join(ErrSubmit, err)
 	}
 
 	c.writeSem <- conn // unlock write
+	verifYield("w.ok")
 	return nil
 }
 
@@ -670,10 +697,12 @@ func (c *Client) writeBuffers(quit <-chan struct{}, p net.Buffers) error {
 		}
 		// unlock write; pending connect
 		c.writeSem <- connPending
+		verifYield("w.fail")
 		return errors.Join(ErrSubmit, err)
 	}
 
 	c.writeSem <- conn // unlock write
+	verifYield("w.ok")
 	return nil
 }
 
@@ -682,6 +711,7 @@ func (c *Client) writeBuffers(quit <-chan struct{}, p net.Buffers) error {
 func (c *Client) writeBuffersNoWait(p net.Buffers) error {
 	// lock write
 	conn, ok := <-c.writeSem
+	verifYield("wn.got")
 	switch {
 	case !ok:
 		return ErrClosed
@@ -698,10 +728,12 @@ func (c *Client) writeBuffersNoWait(p net.Buffers) error {
 		}
 		// unlock write; pending connect
 		c.writeSem <- connPending
+		verifYield("w.fail")
 		return errors.Join(ErrSubmit, err)
 	}
 
 	c.writeSem <- conn // unlock write
+	verifYield("w.ok")
 	return nil
 }
 
@@ -887,6 +919,7 @@ func (c *Client) discard(n int) error {
 // The current connection must be closed in case of a reconnect.
 func (c *Client) connect() error {
 	previousConn, ok := <-c.connSem // locks connection control
+	verifYield("k.conn")
 	if !ok {
 		return ErrClosed
 	}
@@ -906,47 +939,61 @@ func (c *Client) connect() error {
 	case context.Canceled:
 		// Close or Disconnect interrupted dial
 		c.connSem <- previousConn // unlock
+		verifYield("k.cancelled")
 		return ErrClosed
 
 	default:
 		// ErrDown after failed connect
 		<-c.writeSem
+		verifYield("k.failw")
 		c.writeSem <- connDown
 
 		c.connSem <- previousConn // unlock
+		verifYield("k.fail")
 		return err
 	}
 
 	// lock sequences until resubmission (checks) complete
 	atLeastOnceSeq := <-c.atLeastOnce.seqSem
+	verifYield("k.seq1")
 	exactlyOnceSeq := <-c.exactlyOnce.seqSem
+	verifYield("k.seq2")
 
 	// lock write in sequence locks, conform submitPersisted
 	<-c.writeSem
+	verifYield("k.write")
 
 	c.connSem <- conn // unlock (for interruption of resends)
+	verifYield("k.unconn")
 
 	err = c.resend(conn, c.orderedTxs.Acked, &atLeastOnceSeq, atLeastOnceIDSpace)
 	c.atLeastOnce.seqSem <- atLeastOnceSeq // unlock
+	verifYield("k.unseq1")
 	if err != nil {
 		c.exactlyOnce.seqSem <- exactlyOnceSeq // unlock
+		verifYield("k.unseq2")
 		conn.Close()
 		c.writeSem <- connDown
+		verifYield("k.down")
 		return err
 	}
 	err = c.resend(conn, c.orderedTxs.Completed, &exactlyOnceSeq, exactlyOnceIDSpace)
 	c.exactlyOnce.seqSem <- exactlyOnceSeq // unlock
+	verifYield("k.unseq2")
 	if err != nil {
 		conn.Close()
 		c.writeSem <- connDown
+		verifYield("k.down")
 		return err
 	}
 
 	// update signals
 	blockSignalChan(c.offlineSig)
+	verifYield("k.sigmid")
 	clearSignalChan(c.onlineSig)
 	// release
 	c.writeSem <- conn
+	verifYield("k.online")
 	c.readConn = conn
 	c.bufr = bufr
 	// reset backoff ramp-up
@@ -987,18 +1034,24 @@ func (c *Client) dialAndConnect(config *Config) (net.Conn, *bufio.Reader, error)
 		defer close(abort)
 		select {
 		case <-c.ctx.Done():
+			verifYield("abort.ctx")
 			conn.Close() // interrupt
 			abort <- ErrClosed
+			verifYield("abort.sent")
 		case <-done:
+			verifYield("abort.done")
 			break
 		}
 	}()
 
 	bufr, err := c.handshake(conn, config, clientID)
 	// ⚠️ delayed error check
+	verifYield("k.shaken")
 
 	done <- struct{}{}
+	verifYield("k.sync1")
 	e := <-abort
+	verifYield("k.sync2")
 	if e != nil {
 		// abort closed connection
 		return nil, nil, e
